@@ -1086,12 +1086,7 @@ class Fxp():
         """
         
         if isinstance(x, Fxp):
-            if index is None:
-                raw_val = x.val[index]
-            else:
-                raw_val = x.val
-
-            new_val_raw = raw_val * 2**(self.n_frac - x.n_frac)
+            new_val_raw = x.val * 2**(self.n_frac - x.n_frac)
             self.set_val(new_val_raw, raw=True, index=index)
         else:
             self.set_val(x, index=index)
